@@ -5,7 +5,7 @@ From Coq Require Import List NArith Bool Lia Arith.
 From Coq Require Import ZifyBool ZifyNat ZifyN.
 From SNT Require Import Base.Outcome Base.Sweep Image.KDTree Image.KDTreeProofs Image.Octree Image.OctreeExact
      Image.Quantize Image.QuantizeProofs Image.QuantizeExact
-     Image.Sixel Image.SixelInterp Image.SixelStrip Image.SixelBody Image.SixelPicture Image.SixelDraw Gen.TabSixel.
+     Image.Sixel Image.SixelInterp Image.SixelStrip Image.SixelBody Image.SixelPicture Image.SixelDraw Image.SixelCache Gen.TabSixel.
 Import ListNotations.
 Local Open Scope N_scope.
 
@@ -22,6 +22,10 @@ Lemma tables_length : length sixel_pre_tbl = 256%nat /\ length sixel_scale_tbl =
 Proof. split; reflexivity. Qed.
 
 Lemma code_offset_63 : sixel_code_offset = 63.
+Proof. reflexivity. Qed.
+
+(* the band height the encoder uses (height truncation, step, sixel array) is sixel's six *)
+Lemma band_height_6 : sixel_band = 6%nat.
 Proof. reflexivity. Qed.
 
 Lemma palette_size_256 : sixel_palette_size <= 256 /\ 1 <= sixel_palette_size.
@@ -55,6 +59,14 @@ Proof.
   assert (H : sweep1 256 (fun x => scale (pre x) =? spec100 x) = true) by (vm_compute; reflexivity).
   assert (Hx' : x < N.of_nat 256) by (change (N.of_nat 256) with 256; exact Hx).
   pose proof (sweep1_sound 256 _ H x Hx') as Hz. cbv beta in Hz. lia.
+Qed.
+
+Lemma channel_scaling : forall x, x < 256 ->
+  scale (pre x) = spec100 x /\ scale x <= 100 /\ pre x < 256 /\
+  sixel_band = 6%nat /\ sixel_code_offset = 63 /\ sixel_palette_size <= 256.
+Proof.
+  intros x Hx. split; [exact (scale_pre_spec x Hx)|]. split; [apply scale_le_100|]. split; [apply pre_byte|].
+  split; [reflexivity|]. split; [reflexivity|apply palette_size_256].
 Qed.
 
 (* ---------- reading a decoded picture ---------- *)
@@ -152,8 +164,8 @@ Theorem draw_decodes : forall (rows : list (list spx)) (w : nat),
       sixel_draw rows orders = Ok bytes /\ sixel_decode bytes = Some pic /\
       picture_ok (N.of_nat w) (N.of_nat (height6 rows)) pic = true /\
       forall xn yn, (xn < w)%nat -> (yn < height6 rows)%nat ->
-        exists c, nth_error (nth yn q []) xn = Some c /\
-                  pixel_at (p_events pic) (N.of_nat xn) (N.of_nat yn) = Some (reg_color scale pal c).
+        exists c p, nth_error (nth yn q []) xn = Some c /\ nth_error pal (N.to_nat c) = Some p /\
+                    pixel_at (p_events pic) (N.of_nat xn) (N.of_nat yn) = Some (map3 scale p).
 Proof.
   intros rows w Hsrc. destruct (sixel_eff_ok rows w Hsrc) as (Hio & Hlen & Hwd & Hrect).
   destruct palette_size_256 as [Hps1 Hps2].
@@ -202,11 +214,31 @@ Proof.
     destruct (nth_error q yn) as [row|] eqn:Erow; [|apply nth_error_None in Erow; lia].
     assert (Hrl : length row = w) by (rewrite Forall_forall in Hqrect; eapply Hqrect, nth_error_In, Erow).
     destruct (nth_error row xn) as [c|] eqn:Ec; [|apply nth_error_None in Ec; lia].
-    exists c. rewrite (nth_error_nth _ _ _ Erow). split; [exact Ec|].
+    assert (Hcl : c < N.of_nat (length pal)).
+    { rewrite Forall_forall in Hidx. specialize (Hidx row (nth_error_In _ _ Erow)).
+      rewrite Forall_forall in Hidx. apply Hidx, (nth_error_In _ _ Ec). }
+    destruct (nth_error pal (N.to_nat c)) as [pc|] eqn:Epc; [|apply nth_error_None in Epc; lia].
+    exists c, pc. rewrite (nth_error_nth _ _ _ Erow). split; [exact Ec|]. split; [exact Epc|].
+    replace (map3 scale pc) with (reg_color scale pal c) by (unfold reg_color; now rewrite Epc).
     apply pixel_at_unique.
     + intros v' Hin. destruct (Hsound' _ _ _ Hin) as (_ & _ & c' & Hc' & ->).
       rewrite !Nat2N.id, (nth_error_nth _ _ _ Erow), Ec in Hc'. now inversion Hc'.
     + apply (Hcompl xn yn row Erow Hx).
+Qed.
+
+Lemma draw_decodes_view : forall (parent : list (list spx)) crop (w : nat),
+  src_ok (view_rows parent crop) w ->
+  exists pal q,
+    quantize (sixel_eff (view_rows parent crop)) sixel_palette_size sixel_dither = Ok (pal, q) /\
+    (length pal <= 256)%nat /\
+    forall orders, orders_ok q orders = true ->
+    exists bytes pic,
+      sixel_draw (view_rows parent crop) orders = Ok bytes /\ sixel_decode bytes = Some pic /\
+      picture_ok (N.of_nat w) (N.of_nat (height6 (view_rows parent crop))) pic = true.
+Proof.
+  intros parent crop w H. destruct (draw_decodes _ w H) as (pal & q & Hq & Hl & Hd).
+  exists pal, q. split; [exact Hq|]. split; [exact Hl|]. intros orders Ho.
+  destruct (Hd orders Ho) as (bytes & pic & Hb & Hp & Hok & _). exists bytes, pic. auto.
 Qed.
 
 (* the source pixel a position of the (truncated) image refers to *)
@@ -250,7 +282,7 @@ Proof.
   exists pal, q. split; [exact Hq|]. intros orders Hord.
   destruct (Hdec orders Hord) as (bytes & pic & Hb & Hp & _ & Hpix).
   exists bytes, pic. split; [exact Hb|]. split; [exact Hp|].
-  intros xn yn p Hx Hy Hsp. destruct (Hpix xn yn Hx Hy) as (c & Hc & Hpa). rewrite Hpa. f_equal.
+  intros xn yn p Hx Hy Hsp. destruct (Hpix xn yn Hx Hy) as (c & pc & Hc & Hpc & Hpa). rewrite Hpa. f_equal.
   (* the palette entry of this pixel is its effective colour *)
   unfold src_px in Hsp. destruct (nth_error rows yn) as [srow|] eqn:Esrow; [|discriminate].
   assert (Heffrow : nth_error (sixel_eff rows) yn = Some (map (eff_px sixel_pre_tbl) srow)).
@@ -260,7 +292,7 @@ Proof.
     by (rewrite nth_error_map, Hsp; reflexivity).
   destruct (Forall2_nth_pair _ _ _ _ _ Hrow2 Hpx) as (i & Hi & Hpal).
   rewrite (nth_error_nth _ _ _ Hqrow), Hi in Hc. inversion Hc; subst i.
-  unfold reg_color. rewrite Hpal. apply src100_scale.
+  rewrite Hpal in Hpc. inversion Hpc; subst pc. apply src100_scale.
   destruct Hsrc as (_ & _ & _ & Hok). rewrite Forall_forall in Hok.
   specialize (Hok srow (nth_error_In _ _ Esrow)). rewrite Forall_forall in Hok. apply Hok, (nth_error_In _ _ Hsp).
 Qed.
@@ -335,4 +367,38 @@ Proof.
     rewrite Forall_forall in Hok. specialize (Hok r Hr). rewrite Forall_forall in Hok. specialize (Hok p Hp).
     destruct p; exact Hok. }
   apply map3_classes; apply Hall; assumption.
+Qed.
+
+(* ---------- repeated draws on one handler ---------- *)
+
+(* what a computation of this draw writes and caches: nothing when quantize returned None *)
+Definition fresh_of (o : outcome (list N)) : option (list N) :=
+  match o with Ok (b :: r) => Some (b :: r) | _ => None end.
+
+Definition draw_req := (N * list (list spx) * list (list N))%type.   (* content hash, view, strip orders *)
+
+Definition cache_req (d : draw_req) : N * option (list N) :=
+  let '(key, rows, ord) := d in (key, fresh_of (sixel_draw rows ord)).
+
+(* SixelImageHandler::draw called on each request in turn: the cache of Image/SixelCache.v with
+   the regenerated IMAGE_CACHE_SIZE, fresh encodings by sixel_draw under that draw's own
+   hash-map order *)
+Definition handler_run (ds : list draw_req) : list (list N) :=
+  hrun sixel_cache_limit ([], 0) (map cache_req ds).
+
+Theorem repeat_draw : forall (ds : list draw_req) i j key rows oi rows' oj b,
+  total (map cache_req ds) <= sixel_cache_limit ->
+  nth_error ds i = Some (key, rows, oi) -> sixel_draw rows oi = Ok b -> b <> [] ->
+  (forall i' d, (i' < i)%nat -> nth_error ds i' = Some d -> fst (fst d) <> key) ->
+  (i < j)%nat -> nth_error ds j = Some (key, rows', oj) ->
+  nth_error (handler_run ds) i = Some b /\ nth_error (handler_run ds) j = Some b.
+Proof.
+  intros ds i j key rows oi rows' oj b Htot Hi Hb Hne Hfirst Hij Hj. unfold handler_run.
+  apply (second_draw_identical sixel_cache_limit (map cache_req ds) key b i j (fresh_of (sixel_draw rows' oj))).
+  - exact Htot.
+  - rewrite nth_error_map, Hi. cbn [option_map cache_req]. rewrite Hb. destruct b; [congruence|reflexivity].
+  - intros i' Hi' f E. rewrite nth_error_map in E. destruct (nth_error ds i') as [[[k r] o]|] eqn:Ed; [|discriminate].
+    cbn [option_map cache_req] in E. inversion E; subst. apply (Hfirst i' _ Hi' Ed). reflexivity.
+  - exact Hij.
+  - rewrite nth_error_map, Hj. reflexivity.
 Qed.
